@@ -106,6 +106,14 @@ def gen_case(rng: Rng, i: int, tier: str):
         return {"base": {"handmade": "external_names"}, "kind": "external_names", "mseed": r.randrange(1 << 30),
                 "seq": [{"op": op} for op in ["getnames", "list", "test", "testzip", "extractall_f"]][: r2.randint(1, 5)], "open": r.pick(["stream", "path", "anon"]),
                 "chunk": 128000000, "nfiles": r2.pick([1, 1, 2, 3]), "pad": r2.pick([0, 0, 3, 40]), "where": r2.pick(["self", "self", "self", "emptystream", "start", "last", "beyond", "terminator"])}
+    rmm = rng.sub("many_members")
+    if rmm.chance(0.002):
+        # directed: one solid folder of thousands of members behind a decoder that hands out its whole output at once (Brotli): what
+        # the library does per member with the output it holds back must not grow with the amount held back.  The cost is memory
+        # traffic, not interpreter steps: the wall-clock backstop of the pool (case_timeout) is what notices it.
+        return {"base": {"manymembers": {"members": 6000, "len": 11000, "chain": [{"id": "BROTLI"}]}}, "kind": "many_members", "mseed": r.randrange(1 << 30),
+                "seq": [{"op": op} for op in rmm.pick([["testzip", "reset", "extractall_f"], ["extractall_f", "reset", "testzip"], ["getnames", "testzip", "reset", "testzip"]])], "open": rmm.pick(["stream", "path"]),
+                "chunk": 128000000}
     rcp = rng.sub("codec_props")
     if rcp.chance(0.01):
         # directed: a small archive whose coder properties declare the largest working memory the format can express (LZMA / LZMA2
@@ -184,7 +192,18 @@ def _external_names_image(case):
     return b"7z\xbc\xaf\x27\x1c" + b"\x00\x04" + struct.pack("<L", zlib.crc32(start) & 0xFFFFFFFF) + start + header
 
 
+def _manymembers_image(spec):
+    key = "manymembers%r" % sorted((k, str(v)) for k, v in spec.items())
+    if key not in _BOMBS:
+        _BOMBS.clear()
+        members = [{"name": "m%04d" % k, "kind": "file", "data": bytes(spec["len"]), "mtime": None, "ctime": None, "atime": None, "attrs": None} for k in range(spec["members"])]
+        _BOMBS[key] = W.build(members, {"folders": [{"members": list(range(spec["members"])), "chain": spec["chain"]}], "crc": "substream", "header": "lzma"})
+    return _BOMBS[key]
+
+
 def _base_image(case):
+    if "manymembers" in case["base"]:
+        return _manymembers_image(case["base"]["manymembers"]), None, None
     if "handmade" in case["base"]:
         return _external_names_image(case), None, None
     if "bigheader" in case["base"]:
@@ -243,6 +262,10 @@ def make_input(case):
                 t.val = bytes(pv)
                 desc.append("coder %s declares %d bytes of working memory" % (mid.hex(), want))
         data = W.reseal(img, M.serialise(toks))
+        entered = True
+    elif kind == "many_members":
+        data = img
+        desc = ["%d members of %d bytes in one solid Brotli folder" % (case["base"]["manymembers"]["members"], case["base"]["manymembers"]["len"])]
         entered = True
     elif kind == "external_names":
         data = img
